@@ -33,6 +33,11 @@ pub struct Case {
     /// Arc<tokio RwLock>, 3 inside a bare tokio Mutex (the shipped lock wrappers)
     #[serde(default)]
     pub wrap: u8,
+    /// 0: fresh authenticator.  1, 2: the same authenticator first answered getInfo (1) / performed a
+    /// registration (2) while the store had ANOTHER capability ((cap + prior) % 3); the capability
+    /// then changed to `cap` (a store whose capability is a runtime setting)
+    #[serde(default)]
+    pub prior: u8,
 }
 fn cap_of(c: u8) -> Cap {
     match c {
@@ -58,10 +63,15 @@ pub fn cases() -> Vec<Case> {
                                 // the wrappers are spread over the configuration cells, and every
                                 // residentKey x capability cell meets every wrapper with default configuration
                                 let wrap = (hmac + prf + u8::from(counter)) % 4;
-                                v.push(Case { cap, resident_key, require_resident_key, cred_props, ctap: false, rk: false, cfg, prf, wrap });
+                                v.push(Case { cap, resident_key, require_resident_key, cred_props, ctap: false, rk: false, cfg, prf, wrap, prior: 0 });
                                 if hmac == 0 && prf == 0 && !counter {
                                     for wrap in 1..4u8 {
-                                        v.push(Case { cap, resident_key, require_resident_key, cred_props, ctap: false, rk: false, cfg, prf, wrap });
+                                        v.push(Case { cap, resident_key, require_resident_key, cred_props, ctap: false, rk: false, cfg, prf, wrap, prior: 0 });
+                                    }
+                                    for prior in 1..3u8 {
+                                        for wrap in [0u8, 1] {
+                                            v.push(Case { cap, resident_key, require_resident_key, cred_props, ctap: false, rk: false, cfg, prf, wrap, prior });
+                                        }
                                     }
                                 }
                             }
@@ -74,7 +84,10 @@ pub fn cases() -> Vec<Case> {
             for (hmac, hmac_mc) in [(0u8, false), (2, true)] {
                 let cfg = super::common::AuthCfg { counter: hmac != 0, id_len: (hmac != 0).then_some(32), hmac, hmac_mc };
                 for wrap in 0..4u8 {
-                    v.push(Case { cap, resident_key: 0, require_resident_key: false, cred_props: 0, ctap: true, rk, cfg, prf: 0, wrap });
+                    v.push(Case { cap, resident_key: 0, require_resident_key: false, cred_props: 0, ctap: true, rk, cfg, prf: 0, wrap, prior: 0 });
+                }
+                for prior in 1..3u8 {
+                    v.push(Case { cap, resident_key: 0, require_resident_key: false, cred_props: 0, ctap: true, rk, cfg, prf: 0, wrap: 0, prior });
                 }
             }
         }
@@ -123,6 +136,19 @@ where
     // ---- registration
     let (ok, cred_props_out, new_id): (bool, Option<Option<bool>>, Option<Vec<u8>>);
     let mut client = Client::new(auth);
+    if c.prior != 0 {
+        // earlier life of this authenticator under another store capability
+        store.0.lock().unwrap().cap = cap_of((c.cap + c.prior) % 3);
+        if c.prior == 1 {
+            let _ = par::catch(|| block_on(client.authenticator_mut().get_info()));
+        } else {
+            let req = mc_request("example.com", &[8, 8], None, false, true, true, false, None);
+            let _ = par::catch(|| block_on(client.authenticator_mut().make_credential(req)));
+        }
+        store.0.lock().unwrap().cap = cap;
+        let _ = log.take();
+    }
+    let stored_before = store.0.lock().unwrap().recs_ordered().len();
     if c.ctap {
         let req = mc_request("example.com", &[7, 7], None, c.rk, true, true, false, None);
         match par::catch(|| block_on(client.authenticator_mut().make_credential(req))) {
@@ -187,7 +213,7 @@ where
         if ok {
             bad("required-rk-not-refused", "resident key required (rk=true) on a store that only holds non-discoverable credentials, yet the registration succeeded".into());
         }
-        if !stored.is_empty() || !saves.is_empty() {
+        if stored.len() != stored_before || !saves.is_empty() {
             bad("refused-but-stored", format!("refused registration left {} records / {} save calls", stored.len(), saves.len()));
         }
         return (fs, outcome);
@@ -270,7 +296,7 @@ pub fn run(ctx: &Ctx) -> Result<Run, String> {
     let n = cs.len() as u64;
     let mut run = Run::from_stats(
         "model_checking",
-        "complete product store capability(3) x residentKey{no selection, absent, discouraged, preferred, required} x requireResidentKey(2) x credProps{absent,false,true} x authenticator configuration {no hmac-secret, UV-only, with non-UV secret, with evaluation at creation} x prf input {absent, empty, eval} x counters on/off, the store handed over bare / inside Arc<Mutex> / Arc<RwLock> / Mutex (the shipped lock wrappers), through Client::register + Client::authenticate, plus capability(3) x rk(2) through Authenticator::make_credential; each configuration runs a registration and two assertions with the new credential (default requirement with a verified user; verification discouraged with a present but unverified user); every configuration is non-trivial (it reaches save_credential or the required-rk refusal)",
+        "complete product store capability(3) x residentKey{no selection, absent, discouraged, preferred, required} x requireResidentKey(2) x credProps{absent,false,true} x authenticator configuration {no hmac-secret, UV-only, with non-UV secret, with evaluation at creation} x prf input {absent, empty, eval} x counters on/off, the store handed over bare / inside Arc<Mutex> / Arc<RwLock> / Mutex (the shipped lock wrappers), on a fresh authenticator and on one that earlier answered getInfo / registered while the store had another capability, through Client::register + Client::authenticate, plus capability(3) x rk(2) through Authenticator::make_credential; each configuration runs a registration and two assertions with the new credential (default requirement with a verified user; verification discouraged with a present but unverified user); every configuration is non-trivial (it reaches save_credential or the required-rk refusal)",
         true,
         stats,
     );
